@@ -77,8 +77,8 @@ impl Property for C09 {
     }
     fn runs(&self, tier: Tier) -> u64 {
         match tier {
-            Tier::Quick => 2500,
-            Tier::Thorough => 25000,
+            Tier::Quick => 20000,
+            Tier::Thorough => 200000,
         }
     }
     fn rule(&self) -> &'static str {
@@ -207,7 +207,8 @@ impl Property for C09 {
                 continue;
             }
             let pending = p.saturating_sub(o);
-            if (complete_at(p) || (in_ordinary_text(p) && !texty)) && pending > 0 {
+            // 'ends in ordinary text => nothing held' is stated for the no-handler configuration only
+            if (complete_at(p) || (no_handlers && in_ordinary_text(p))) && pending > 0 {
                 let detail = format!("{pending} bytes held back although the data so far ends {} ; prefix={}", if complete_at(p) { "right after a complete tag/comment/doctype" } else { "in ordinary text" }, show(&sc.doc[..p]));
                 if no_handlers && foreign_context(&sc.doc[..p]) && pending <= p - last_tag_open(&sc.doc[..p]) {
                     return Ok(Err(Fail::known("C09.nothing_held", detail, "foreign_content_tag_needs_full_lexeme")));
